@@ -32,10 +32,7 @@ SEP_ENC = "paseto-encryption-key"
 SEP_AUTH = "paseto-auth-key-for-aead"
 
 
-class Finding:
-    def __init__(self, rule, ok, where, construct, msg, file=None, line=None, desc=None):
-        self.rule, self.ok, self.where, self.construct, self.msg, self.file, self.line = rule, ok, where, construct, msg, file, line
-        self.desc = desc or construct
+from .protocol_base import Finding  # noqa: E402
 
 
 def is_payload(t):
@@ -966,6 +963,9 @@ def _nonce_rules(out, facts, entries, protos):
         _f(out, "C10.R2", ok, b["id"], "whole buffer filled by the system CSPRNG", "try_new_random must return a buffer filled whole by SystemRandom::fill, and an RNG failure must be an Err; %s" % detail, ln, file=v.file(),
            desc="Key::try_new_random: Ok(Key(buf)) with buf filled whole by SystemRandom; failure -> Err")
     for e in S.select(entries, "generic", "producer", "Local"):
+        from . import layers as _layers
+        if _layers.analyse(facts, entries).get(e.id, (None, None))[0] is not None:
+            continue    # decided by the generic build contract (rules/layers.py)
         v = M.view(facts, e.body)
         N = M.Normalizer(facts, keep=S.KEEP)
         core_calls = [(bi, t) for bi, t in v.find_calls(r"paseto::Paseto<.*Local>>::try_encrypt$")]
@@ -1002,7 +1002,11 @@ def _nonce_rules(out, facts, entries, protos):
                 want = "BLAKE2b-24(key = random bytes)(message)"
             _f(out, "C10.R3", ok, pr, "all nonce bytes reach the wire", "the wire nonce must be %s; found %s" % (want, n), pr.pae_site["ln"], desc="%s: wire nonce = %s" % (pr.e.label, want))
             _f(out, "C08.R3", ok, pr, "nonce derivation", "the wire nonce must be %s; found %s" % (want, n), pr.pae_site["ln"], desc="%s: wire nonce = %s" % (pr.e.label, want))
+    from . import layers
+    lay = layers.analyse(facts, entries)
     for e in S.select(entries, "prelude", "producer", "Local"):
+        if lay.get(e.id, (None, None))[0] is not None:
+            continue    # decided by the build contract (rules/layers.py)
         v = M.view(facts, e.body)
         names = [M.callee_def(t["callee"]) for _, t in v.calls]
         gen = [x for x in names if re.search(r"GenericBuilder::<.*>::try_encrypt$", x)]
@@ -1011,8 +1015,24 @@ def _nonce_rules(out, facts, entries, protos):
 
 
 def _wrapper_rules(out, facts, entries):
-    """C01.R7 / C02.R5 / C05.R5 / C06.R4: the generic and prelude layers forward payload, key, footer and assertion unchanged
-    and do not consume builder / parser state."""
+    """C01.R7 / C02.R5 / C05.R5 / C06.R4 / C10.R4: the generic and prelude layers forward payload, key, footer and assertion unchanged
+    and do not consume builder / parser state.  Decided semantically (rules/layers.py: the wrapper is interpreted with the layer below
+    summarised, its contract read off the events); the structural rules below are only the second opinion for an entry point the
+    interpreter could not follow to the end."""
+    from . import layers
+    sem = layers.analyse(facts, entries)
+    structural = []
+    _wrapper_rules_structural(structural, facts, entries)
+    decided = set(w for w, (fs, _why) in sem.items() if fs is not None)
+    for w, (fs, _why) in sorted(sem.items()):
+        if fs is not None:
+            out.extend(fs)
+    for f in structural:
+        if f.where not in decided:
+            out.append(f)
+
+
+def _wrapper_rules_structural(out, facts, entries):
     for e in S.select(entries, "generic", "producer"):
         v = M.view(facts, e.body)
         N = M.Normalizer(facts, keep=S.KEEP)
